@@ -18,7 +18,7 @@ def build_obs(tier, tables):
     # lexer: every rule that produces or accumulates comment text
     sc0 = [r for r in tables["reach"]["0"]]
     obs += lex_step_obs(tables, ["CHK_C15", "CHK_C03"], tier, "c15lex", windows=[4], checks="none", scs=(1,))
-    obs += lex_step_obs(tables, ["CHK_C15", "CHK_C03"], tier, "c15lex", windows=[5], checks="none", scs=(0,), variants=("null", "fill5"))
+    obs += lex_step_obs(tables, ["CHK_C15", "CHK_C03"], tier, "c15lex", windows=[5, 7], checks="none", scs=(0,), variants=("null", "fill5"))
     return obs
 
 
